@@ -34,10 +34,15 @@ RegOf(st) == SeqToSet(st.reg)
 
 Sfx(p, k) == p \o "_" \o ToString(k)
 
-(* _get_unused_prefix: p, else p_1, p_2, ... tested against this table only *)
-Unused(st, p) ==
-  IF ~InTbl(st, p) THEN p
-  ELSE LET n == MinOf({k \in 1..(Cardinality(DOMAIN st.tbl) + 1) : ~InTbl(st, Sfx(p, k))})
+(* `anc' is the merged table (prefix -> URI) of the ancestors of a manager, nearest first: a  *)
+(* prefix an ancestor binds to ANOTHER namespace counts as a clash, because this manager also    *)
+(* hands out the ancestor's names (string resolution is delegated to the parent)                *)
+InheritedDifferently(anc, p, u) == p \in DOMAIN anc /\ anc[p] # u
+Taken(st, anc, p) == InTbl(st, p) \/ p \in DOMAIN anc
+(* _get_unused_prefix: p_1, p_2, ... tested against this table and the ancestors' *)
+Unused(st, anc, p) ==
+  IF ~Taken(st, anc, p) THEN p
+  ELSE LET n == MinOf({k \in 1..(Cardinality(DOMAIN st.tbl) + Cardinality(DOMAIN anc) + 1) : ~Taken(st, anc, Sfx(p, k))})
        IN  Sfx(p, n)
 
 (* dict assignment self[p] = ns : new keys go to the end of the order *)
@@ -46,16 +51,18 @@ SetTbl(st, p, u) ==
              !.order = IF p \in DOMAIN st.tbl THEN @ ELSE Append(@, p)]
 
 (* NamespaceManager.add_namespace(Namespace(p,u)) *)
-AddNsF(st, p, u) ==
+AddNsF(st, anc, p, u) ==
   IF InTbl(st, p) /\ st.tbl[p] = u THEN [ns |-> <<p, u>>, st |-> st]
   ELSE IF <<p, u>> \in DOMAIN st.rename THEN [ns |-> st.rename[<<p, u>>], st |-> st]
   ELSE IF u \in DOMAIN st.urimap THEN
        LET e == st.urimap[u] IN
        [ns |-> e,
         st |-> [st EXCEPT !.rename = (<<p, u>> :> e) @@ @, !.prenamed = (p :> e) @@ @]]
-  ELSE IF InTbl(st, p) THEN
-       LET np  == Unused(st, p)
+  ELSE IF InTbl(st, p) \/ InheritedDifferently(anc, p, u) THEN
+       LET np  == Unused(st, anc, p)
            new == <<np, u>>
+           \* prenamed: from here on the STRING p:l means the new namespace in this manager, also when
+           \* p was only an ancestor's (this is what lets a reader feed a bundle's own prefix block)
            s1  == [st EXCEPT !.rename = (<<p, u>> :> new) @@ @, !.prenamed = (p :> new) @@ @,
                              !.reg = Append(@, new), !.urimap = (u :> new) @@ @]
        IN [ns |-> new, st |-> SetTbl(s1, np, u)]
@@ -66,13 +73,13 @@ AddNsF(st, p, u) ==
 SetDefaultF(st, u) == [SetTbl(st, "", u) EXCEPT !.dflt = u]
 
 (* valid_qualified_name(QualifiedName(Namespace(p, ns), l)) *)
-ResolveQNF(st, p, ns, l) ==
+ResolveQNF(st, anc, p, ns, l) ==
   IF p = "" THEN
        IF st.dflt = ns THEN [q |-> QN("", ns, l), st |-> st]
        ELSE IF st.dflt = NONE THEN [q |-> QN("", ns, l), st |-> [st EXCEPT !.dflt = ns]]
-       ELSE LET r == AddNsF(st, "dn", ns) IN [q |-> QN(r.ns[1], r.ns[2], l), st |-> r.st]
+       ELSE LET r == AddNsF(st, anc, "dn", ns) IN [q |-> QN(r.ns[1], r.ns[2], l), st |-> r.st]
   ELSE IF InTbl(st, p) /\ st.tbl[p] = ns THEN [q |-> QN(p, ns, l), st |-> st]
-  ELSE LET r == AddNsF(st, p, ns) IN [q |-> QN(r.ns[1], r.ns[2], l), st |-> r.st]
+  ELSE LET r == AddNsF(st, anc, p, ns) IN [q |-> QN(r.ns[1], r.ns[2], l), st |-> r.st]
 
 (* URI compaction: first table entry, in dict order, whose URI is a prefix of u *)
 Compact(st, u) ==
@@ -101,6 +108,11 @@ ResolveStrF(M, m, str) ==
   IF r.ok THEN r
   ELSE IF M[m].parent # "" THEN LocalStr(M[M[m].parent], str)
   ELSE NoQN
+
+(* merged table of the ancestors of manager m (the library builds at most document <- bundle) *)
+AncTbl(M, m) == IF M[m].parent = "" THEN <<>>
+                ELSE LET pm == M[m].parent IN
+                     IF M[pm].parent = "" THEN M[pm].tbl ELSE M[pm].tbl @@ M[M[pm].parent].tbl
 
 (* How a name prints: prefix:local, or the bare local for the empty prefix *)
 Printed(q) == IF q.p = "" THEN StrBare(q.l) ELSE StrPL(q.p, q.l)
